@@ -2,94 +2,206 @@
 
 from __future__ import annotations
 
-import ast
+import itertools
+from fractions import Fraction as F
 
 from sa import term as T
-from sa.cfg import CFG
 from sa.interp import SObj, SVar
-from sa.kernel import P, make_param, run_kernel
+from sa.kernel import P, run_kernel
 from sa.load import AnalysisError, Repo, loc
 from sa.report import Run
 from sa.term import Rat
 from sa.units import Unit
+from sa.witness import WitnessInterp, WitnessModel, items_of, sym_scalar
+from spec import clip
 from spec.formulas import S, h, m_n
 
-from .common import eq_term, events, returns, show
+from .common import eq_term, returns, show
 
 MOD = 'tof.chopper_cascade'
 SPECS = {'time': P(dim='T', positive=False), 'wavelength': P(dim='L'), 'distance': P(dim='L', positive=False)}
+SEC, ANG, M, CM = Unit.named('s'), Unit.named('angstrom'), Unit.named('m'), Unit.named('cm')
+TAG = 'xt'  # exactness tag: 'A<id>' bit-exactly that endpoint, 'Z' exactly zero, 'I' inexact, absent = unrelated
 
 
-def norm(node) -> str:
-    return ast.unparse(node).replace(' ', '')
+class ExactModel(WitnessModel):
+    """WitnessModel plus a floating-point exactness tag: which results are bit-exactly an endpoint value."""
+
+    def binop(self, interp, op, a, b, node, inplace=False):
+        r = super().binop(interp, op, a, b, node, inplace)
+        if isinstance(r, SVar) and items_of(r) is None:
+            ta = self._tag(a)
+            tb = self._tag(b)
+            tag = None
+            if op == 'sub':
+                if ta and ta == tb and ta.startswith('A'):
+                    tag = 'Z'
+                elif tb == 'Z':
+                    tag = ta
+                elif ta == 'Z' and tb is None:
+                    tag = None
+                elif (ta or tb):
+                    tag = 'I'
+            elif op == 'add':
+                if ta == 'Z':
+                    tag = tb
+                elif tb == 'Z':
+                    tag = ta
+                elif ta or tb:
+                    tag = 'I'
+            elif op == 'mul':
+                if 'Z' in (ta, tb):
+                    tag = 'Z'
+                elif ta or tb:
+                    tag = 'I'
+            elif op == 'div':
+                if ta == 'Z':
+                    tag = 'Z'
+                elif ta or tb:
+                    tag = 'I'
+            elif ta or tb:
+                tag = 'I'
+            if tag:
+                r.members[TAG] = tag
+        return r
+
+    @staticmethod
+    def _tag(x):
+        if isinstance(x, SVar):
+            return x.members.get(TAG)
+        if isinstance(x, int | float) and x == 0:
+            return 'Z'
+        return None
+
+    def call_method(self, interp, recv, name, args, kwargs, node):
+        r = super().call_method(interp, recv, name, args, kwargs, node)
+        if isinstance(recv, SVar) and isinstance(r, SVar) and name in ('to', 'copy', 'astype'):
+            pairs = [(recv, r)] if items_of(r) is None else list(zip(items_of(recv) or [], items_of(r), strict=False))
+            for src, dst in pairs:
+                if TAG in src.members and dst is not src:
+                    # a conversion to the same unit and dtype hands on the same bits
+                    dst.members[TAG] = src.members[TAG] if (dst.unit == src.unit and dst.dtype == src.dtype) else 'I'
+        return r
 
 
-def stmts(fn) -> list[str]:
-    return [norm(s) for s in ast.walk(fn) if isinstance(s, ast.stmt)
-            and not isinstance(s, ast.FunctionDef | ast.If | ast.For | ast.Try | ast.With | ast.While)]
+class World:
+    """One interpretation context: interpreter, model, and helpers to build the package's objects."""
+
+    def __init__(self, repo, model_cls=WitnessModel):
+        T.reset()
+        self.repo = repo
+        self.model = model_cls()
+        self.model.val['m_n'] = F(10 ** 10)  # with h = 1: one metre of flight shifts t by lambda[angstrom] seconds
+        self.it = WitnessInterp(repo, self.model)
+        self.it.events, self.it.conditions = [], []
+        self.sub_cls = repo.cls(MOD, 'Subframe')
+        self.frame_cls = repo.cls(MOD, 'Frame')
+        self.chop_cls = repo.cls(MOD, 'Chopper')
+        self.seq_cls = repo.cls(MOD, 'FrameSequence')
+
+    def scalar(self, name, unit, value, positive=False):
+        return sym_scalar(self.it, self.model, name, unit, value, positive=positive)
+
+    def subframe(self, name, tvals, wvals, shared_w=None):
+        ts = [self.scalar(f'{name}_t{k}', SEC, v) for k, v in enumerate(tvals)]
+        ws = []
+        pool = {}
+        for k, v in enumerate(wvals):
+            key = shared_w[k] if shared_w else k
+            if key not in pool:
+                pool[key] = self.scalar(f'{name}_w{key}', ANG, v, positive=True)
+                pool[key].members[TAG] = f'A{key}'
+            ws.append(pool[key])
+        time = self.model.array(self.it, ts, 'vertex')
+        wav = self.model.array(self.it, ws, 'vertex')
+        return self.it.construct(self.sub_cls, [], {'time': time, 'wavelength': wav}, None)
+
+    def frame(self, distance, subs):
+        return self.it.construct(self.frame_cls, [], {'distance': distance, 'subframes': list(subs)}, None)
+
+    def chopper(self, name, distance, opens, closes):
+        o = self.model.array(self.it, [self.scalar(f'{name}_open{k}', SEC, v) for k, v in enumerate(opens)], 'cutout')
+        c = self.model.array(self.it, [self.scalar(f'{name}_close{k}', SEC, v) for k, v in enumerate(closes)], 'cutout')
+        return self.it.construct(self.chop_cls, [], {'distance': distance, 'time_open': o, 'time_close': c}, None)
+
+    def call(self, fi, args, kwargs=None, bound=None):
+        """Run one repository function; returns ('return', value) or ('raise', exc_type)."""
+        from sa.interp import RaiseSignal, ReturnSignal
+        try:
+            return 'return', self.it.call_function(fi, list(args), dict(kwargs or {}), bound=bound)
+        except ReturnSignal as r:  # pragma: no cover
+            return 'return', r.value
+        except RaiseSignal as r:
+            return 'raise', r.exc_type
+
+    def val(self):
+        return self.model.val
 
 
-# ---- exactness evaluator for the interpolation expression ---------------------
-ZERO, ENDPOINT, OTHER, INEXACT = 'ZERO', 'ENDPOINT', 'OTHER', 'INEXACT'
+def points(sub) -> list:
+    """(time term, wavelength term) of every vertex of a Subframe object."""
+    if not isinstance(sub, SObj):
+        raise AnalysisError(f'expected a Subframe, got {sub!r}')
+    t, w = sub.attrs.get('time'), sub.attrs.get('wavelength')
+    ti, wi = items_of(t), items_of(w)
+    if ti is None or wi is None or len(ti) != len(wi):
+        raise AnalysisError('Subframe vertices are not arrays of equal length')
+    out = []
+    for a, b in zip(ti, wi, strict=True):
+        if not isinstance(a.term, Rat) or not isinstance(b.term, Rat):
+            raise AnalysisError(f'vertex value unknown: {a!r} / {b!r}')
+        out.append((a.term, b.term))
+    return out
 
 
-def exact_eval(e, endpoints: set[str], env: dict):
-    """Abstract value of `e` when both interpolation endpoints hold the same float A:
-    ENDPOINT (bit-exactly A), ZERO (exactly 0), OTHER (unrelated), INEXACT (A up to rounding)."""
-    text = norm(e)
-    if text in endpoints:
-        return ENDPOINT
-    if isinstance(e, ast.Name) and e.id in env:
-        return env[e.id]
-    if isinstance(e, ast.Constant):
-        return ZERO if e.value == 0 else OTHER
-    if isinstance(e, ast.BinOp):
-        a, b = exact_eval(e.left, endpoints, env), exact_eval(e.right, endpoints, env)
-        if isinstance(e.op, ast.Sub):
-            if a == ENDPOINT and b == ENDPOINT:
-                return ZERO
-            if b == ZERO:
-                return a
-            return INEXACT if ENDPOINT in (a, b) or INEXACT in (a, b) else OTHER
-        if isinstance(e.op, ast.Add):
-            if a == ZERO:
-                return b
-            if b == ZERO:
-                return a
-            return INEXACT if ENDPOINT in (a, b) or INEXACT in (a, b) else OTHER
-        if isinstance(e.op, ast.Mult):
-            if ZERO in (a, b):
-                return ZERO
-            return INEXACT if ENDPOINT in (a, b) or INEXACT in (a, b) else OTHER
-        if isinstance(e.op, ast.Div):
-            if a == ZERO:
-                return ZERO
-            return INEXACT if ENDPOINT in (a, b) or INEXACT in (a, b) else OTHER
-        return INEXACT
-    if isinstance(e, ast.UnaryOp):
-        return exact_eval(e.operand, endpoints, env)
-    return OTHER
+def show_poly(pts, val) -> list:
+    return [f'({float(t):g}, {float(w):g})' for t, w in clip.numeric(pts, val)]
+
+
+def alpha() -> Rat:
+    return m_n() / h()
+
+
+def match_polygons(got: list, want: list, val, symbolic: bool):
+    """Multiset equality of polygon lists; returns (ok, description of the first difference)."""
+    left = list(got)
+    for wpoly in want:
+        hit = None
+        for i, g in enumerate(left):
+            if clip.same_polygon_numeric(clip.numeric(g, val), clip.numeric(wpoly, val)) and (not symbolic or clip.same_polygon_symbolic(g, wpoly)):
+                hit = i
+                break
+        if hit is None:
+            sym_only = any(clip.same_polygon_numeric(clip.numeric(g, val), clip.numeric(wpoly, val)) for g in left)
+            return False, {'missing_polygon': show_poly(wpoly, val), 'reported': [show_poly(g, val) for g in got],
+                           'note': 'numerically equal at the witness but not as exact terms' if sym_only else 'not reported'}
+        left.pop(hit)
+    if left:
+        return False, {'extra_polygon': show_poly(left[0], val), 'expected': [show_poly(w, val) for w in want]}
+    return True, {}
 
 
 def run(tier: str) -> Run:
     run = Run('C11', tier, 'other',
-              'Decided: (R1) propagate_times is t + d*lambda*m_n/h (degree 1 in d, so two steps equal '
-              'one step as an algebraic identity) and Subframe.propagate_by / Frame.propagate_to apply '
-              'it to the stored vertices with the distance difference; (R2) _chop has the '
-              'Sutherland-Hodgman shape: per edge i -> (i+1) mod n, vertex i is kept iff inside, an '
-              'intersection is emitted iff inside flips, inclusive comparisons t >= open / t <= close; '
-              '(R3) Frame.chop clips every subframe with every (open, close) pair by both half-planes, '
-              'after propagating to the chopper and refusing smaller distances, with no early exit; '
-              '(R4) FrameSequence.chop sorts by distance and __getitem__ propagates the last frame '
-              'not beyond the requested distance; (R5) the interpolation of the wavelength at an '
-              'intersection is bit-exact when both endpoints carry the same wavelength, because '
-              'Subframe.is_regular compares with ==.  "(t, lambda) transmitted iff inside a polygon" '
-              'is geometry of runtime values and is not decided.')
+              'Witness-guided symbolic interpretation of tof/chopper_cascade.py: vertices, windows and distances are '
+              'symbols with exact rational witness values; every comparison the code makes is decided at the witness, '
+              'the vertices it reports stay exact terms, and they are compared with a reference model written from the '
+              'definition (shear t + d*lambda*m_n/h; polygon ∩ {t >= open} ∩ {t <= close}).  Decided: (R1) the shear, '
+              'its composition law, Subframe.propagate_by and Frame.propagate_to; (R2) _chop equals the half-plane '
+              'intersection for every order type of 3- and 4-vertex polygons against the cut (below / on / above per '
+              'vertex, both directions), as exact terms for generic order types and numerically on the cut; (R3) '
+              'Frame.chop refuses a chopper in front of the frame and otherwise reports exactly the polygons of the '
+              'reference model for every subframe x window (none lost, none extra, any order); (R4) '
+              'FrameSequence.chop gives the same frames for either listing order and __getitem__ propagates the last '
+              'frame not beyond the distance; (R5) the wavelength of an intersection is bit-exactly the endpoint value '
+              'when both endpoints carry the same wavelength (exactness tags), which Subframe.is_regular (==) relies on; '
+              '(R6) every subframe produced in these scenarios is regular.  Rounding of the interpolation for unequal '
+              'endpoints is not decided.')
     repo = Repo()
     run.analysed = {'modules': [MOD], 'digest': repo.digest.hexdigest()}
-    run.trusted = ['sa/scipp_model.py', 'sa/cfg.py']
+    run.trusted = ['sa/scipp_model.py', 'sa/witness.py', 'spec/clip.py (reference model)']
 
-    # ---- R1 ------------------------------------------------------------------
+    # ---- R1 -----------------------------------------------------------------------------
     r1 = run.rule('R1', 'propagation is the shear t + d*lambda*m_n/h; two steps equal one step', 5)
     fi = repo.func(MOD, 'propagate_times')
     outs = returns(run_kernel(repo, fi, SPECS))
@@ -111,136 +223,211 @@ def run(tier: str) -> Run:
     r1.check(len(o) == 1 and o[0].value.term is not None and eq_term(o[0].value.term, S('wavelength') * m_n() / h())
              and o[0].value.unit == Unit({'s': 1, 'm': -1}), 'wavelength_to_inverse_velocity', loc(vfi),
              {'computed': show(o[0].value) if o else None}, key='inverse-velocity')
-    # Subframe.propagate_by and Frame.propagate_to through the object model
-    sub_cls, frame_cls = repo.cls(MOD, 'Subframe'), repo.cls(MOD, 'Frame')
+
+    w = World(repo)
     pfi = repo.func(MOD, 'Subframe.propagate_by')
-
-    def sub_bound(it):
-        tm = make_param(it, 'time', P(dim='T', positive=False, unit=Unit.named('s')))
-        wl = make_param(it, 'wavelength', P(dim='L', unit=Unit.named('angstrom')))
-        return SObj(sub_cls, {'time': tm, 'wavelength': wl})
-    o = [x for x in run_kernel(repo, pfi, {'distance': SPECS['distance']}, bound=sub_bound) if x.kind == 'return']
-    ok = bool(o)
-    detail = {}
-    for x in o:
-        v = x.value
-        want2 = S('time', False) + S('distance', False) * S('wavelength') * m_n() / h()
-        ok = ok and isinstance(v, SObj) and isinstance(v.attrs.get('time'), SVar) and v.attrs['time'].term is not None \
-            and eq_term(v.attrs['time'].term, want2) and eq_term(v.attrs['wavelength'].term, S('wavelength'))
-        detail = {'time': show(v.attrs.get('time')) if isinstance(v, SObj) else repr(v)}
-    r1.check(ok, 'Subframe.propagate_by', loc(pfi), detail, key='propagate_by')
+    sub = w.subframe('P', (0, 4, 2), (1, 1, 3))
+    delta = w.scalar('delta', M, 3)
+    kind, res = w.call(pfi, [delta], bound=sub)
+    ok = kind == 'return' and isinstance(res, SObj) and clip.same_polygon_symbolic(points(res), clip.shear(points(sub), delta.term, alpha()))
+    r1.check(ok, 'Subframe.propagate_by', loc(pfi), {'outcome': kind, 'vertices': show_poly(points(res), w.val()) if kind == 'return' and isinstance(res, SObj) else None},
+             key='propagate_by')
     ffi = repo.func(MOD, 'Frame.propagate_to')
-    texts = stmts(ffi.node)
-    r1.check('delta=distance.to(unit=self.distance.unit,copy=False)-self.distance' in texts
-             and 'subframes=[subframe.propagate_by(delta)forsubframeinself.subframes]' in texts
-             and 'returnFrame(distance=distance,subframes=subframes)' in texts, 'Frame.propagate_to', loc(ffi), {'statements': texts}, key='propagate_to')
+    d0 = w.scalar('d0', M, 2)
+    d1_ = w.scalar('d1', CM, 500)
+    frame = w.frame(d0, [sub, w.subframe('Q', (1, 2, 3), (2, 4, 3))])
+    kind, res = w.call(ffi, [d1_], bound=frame)
+    ok = kind == 'return' and isinstance(res, SObj) and isinstance(res.attrs.get('distance'), SVar) and isinstance(res.attrs['distance'].term, Rat) \
+        and res.attrs['distance'].term.eq(d1_.term) and len(res.attrs.get('subframes', [])) == 2 \
+        and all(clip.same_polygon_symbolic(points(g), clip.shear(points(s_), d1_.term - d0.term, alpha()))
+                for g, s_ in zip(res.attrs['subframes'], frame.attrs['subframes'], strict=True))
+    r1.check(ok, 'Frame.propagate_to', loc(ffi), {'outcome': kind}, key='propagate_to')
 
-    # ---- R2 / R5: _chop ---------------------------------------------------------------
-    r2 = run.rule('R2', '_chop has the Sutherland-Hodgman shape with inclusive half-planes', 6)
+    # ---- R2: _chop against the half-plane intersection, every order type ---------------------------
+    r2 = run.rule('R2', '_chop == polygon ∩ half-plane for every order type of the vertices against the cut', 200)
     cfi = repo.func(MOD, '_chop')
-    texts = stmts(cfi.node)
-    loops = [n for n in ast.walk(cfi.node) if isinstance(n, ast.For)]
-    if len(loops) != 1:
-        raise AnalysisError('_chop: the edge-loop idiom (one for loop over the vertices) is not recognised')
-    lp = loops[0]
-    r2.check('inside=frame.time>=timeifclose_to_openelseframe.time<=time' in texts, 'inclusive half-planes', loc(cfi),
-             {'inside': [t_ for t_ in texts if t_.startswith('inside=')]}, key='inside')
-    r2.check(norm(lp.iter) == 'range(len(frame.time))' and 'j=(i+1)%len(frame.time)' in texts, 'every edge incl. the closing one', loc(cfi, lp),
-             {'iter': norm(lp.iter), 'j': [t_ for t_ in texts if t_.startswith('j=')]}, key='edges')
-    ifs = [s for s in lp.body if isinstance(s, ast.If)]
-    keep = [s for s in ifs if norm(s.test) == 'inside_i' and [norm(x) for x in s.body] == ['output.append((frame.time[i],frame.wavelength[i]))'] and not s.orelse]
-    cross = [s for s in ifs if norm(s.test) in ('inside_i!=inside_j', 'inside_j!=inside_i') and not s.orelse]
-    r2.check(len(keep) == 1 and 'inside_i=inside[i]' in texts and 'inside_j=inside[j]' in texts, 'vertex kept iff inside', loc(cfi),
-             {'tests': [norm(s.test) for s in ifs]}, key='keep')
-    jumps = [n for n in ast.walk(lp) if isinstance(n, ast.Break | ast.Continue | ast.Return)]
-    r2.check(len(cross) == 1 and len(ifs) == 2 and not jumps and (not keep or lp.body.index(keep[0]) < lp.body.index(cross[0])) if cross else False,
-             'intersection iff inside flips, after the vertex', loc(cfi), {'jumps': [type(j).__name__ for j in jumps]}, key='cross')
-    inter_ok = False
-    lerp = None
-    if cross:
-        ctexts = [norm(x) for x in cross[0].body]
-        inter_ok = 't=(time-frame.time[i])/(frame.time[j]-frame.time[i])' in ctexts and ctexts[-1] == 'output.append((time,v))'
-        for x in cross[0].body:
-            if isinstance(x, ast.Assign) and norm(x.targets[0]) == 'v':
-                lerp = x.value
-    r2.check(inter_ok and lerp is not None, 'intersection at the clip time with parameter (T-t_i)/(t_j-t_i)', loc(cfi),
-             {'statements': [norm(x) for x in cross[0].body] if cross else None}, key='intersection')
-    r2.check('ifnotoutput:returnNone' in ''.join(norm(s) for s in cfi.node.body if isinstance(s, ast.If)).replace('\n', '') or
-             any(isinstance(s, ast.If) and norm(s.test) == 'notoutput' and isinstance(s.body[0], ast.Return) for s in cfi.node.body),
-             'empty result is None', loc(cfi), {}, key='empty')
+    level = {'below': 1, 'on': 2, 'above': 3}
+    bad2 = {}
+    n_runs = 0
+    for n in (3, 4):
+        for pattern in itertools.product(('below', 'on', 'above'), repeat=n):
+            for later in (True, False):
+                w = World(repo)
+                # distinct times within a level keep the polygon non-degenerate
+                tv = [F(level[p]) + (F(k, 10) if p != 'on' else 0) * (1 if p == 'above' else -1) for k, p in enumerate(pattern)]
+                wv = [F(k + 1) + F(k * k, 7) for k in range(n)]
+                sub = w.subframe('S', tv, wv)
+                cut = w.scalar('cut', SEC, 2)
+                kind, res = w.call(cfi, [sub, cut], {'close_to_open': later})
+                n_runs += 1
+                want_pts = clip.half_plane(points(sub), cut.term, later, w.val())
+                generic = 'on' not in pattern
+                inst = ('generic' if generic else 'vertex on the cut') + (' t>=cut' if later else ' t<=cut')
+                if kind != 'return':
+                    bad2.setdefault(inst, {'pattern': pattern, 'problem': f'_chop raises {res}'})
+                    continue
+                if res is None:
+                    if clip.dedupe(clip.numeric(want_pts, w.val())):
+                        bad2.setdefault(inst, {'pattern': pattern, 'problem': 'None returned', 'expected': show_poly(want_pts, w.val())})
+                    continue
+                got_pts = points(res)
+                okn = clip.same_polygon_numeric(clip.numeric(got_pts, w.val()), clip.numeric(want_pts, w.val()))
+                oks = clip.same_polygon_symbolic(got_pts, want_pts) if generic else True
+                if not (okn and oks):
+                    bad2.setdefault(inst, {'pattern': pattern, 'reported': show_poly(got_pts, w.val()), 'expected': show_poly(want_pts, w.val()),
+                                           'note': 'equal at the witness but not as exact terms' if okn else 'different polygon'})
+    for inst in ('generic t>=cut', 'generic t<=cut', 'vertex on the cut t>=cut', 'vertex on the cut t<=cut'):
+        r2.check(inst not in bad2, inst, loc(cfi), bad2.get(inst, {}), key=inst)
+    for _ in range(n_runs - 4):
+        r2.ok('order type')
 
-    r5 = run.rule('R5', 'wavelength interpolation is a convex combination that is bit-exact for equal endpoints', 2)
-    if lerp is not None:
-        # algebra: v == w_i + t*(w_j - w_i)
-        from sa.term import Rat as _R
-        wi, wj, tt = _R.sym('w_i'), _R.sym('w_j'), _R.sym('t')
-        env_terms = {'frame.wavelength[i]': wi, 'frame.wavelength[j]': wj, 't': tt}
+    # ---- R5: exactness of the interpolation for equal endpoints ----------------------------------------------
+    r5 = run.rule('R5', 'wavelength interpolation is bit-exact when both endpoints carry the same wavelength', 2)
+    for later in (True, False):
+        w = World(repo, ExactModel)
+        # a rectangle: edges 0-1 and 2-3 are lines of constant wavelength crossing the cut
+        sub = w.subframe('R', (1, 3, 3, 1), (1, 1, 5, 5), shared_w=(0, 0, 1, 1))
+        cut = w.scalar('cut', SEC, 2)
+        kind, res = w.call(cfi, [sub, cut], {'close_to_open': later})
+        detail = {'outcome': kind}
+        ok = False
+        if kind == 'return' and isinstance(res, SObj):
+            ws = items_of(res.attrs['wavelength'])
+            ts = items_of(res.attrs['time'])
+            crossing = [wv for tv_, wv in zip(ts, ws, strict=True) if isinstance(tv_.term, Rat) and tv_.term.eq(cut.term)]
+            tags = [wv.members.get(TAG) for wv in crossing]
+            ok = len(crossing) == 2 and all(t_ is not None and t_.startswith('A') for t_ in tags)
+            detail = {'intersection_wavelength_tags': tags, 'meaning': 'A<k>: bit-exactly endpoint k; I: equal only up to rounding',
+                      'consumer': 'Subframe.is_regular compares time/wavelength with =='}
+        r5.check(ok, 'exact for equal endpoints' + (' t>=cut' if later else ' t<=cut'), loc(cfi), detail, key='lerp-exact')
 
-        def term_of(e):
-            k = norm(e)
-            if k in env_terms:
-                return env_terms[k]
-            if isinstance(e, ast.Constant):
-                return _R.const(e.value)
-            if isinstance(e, ast.BinOp):
-                a, b = term_of(e.left), term_of(e.right)
-                return {ast.Add: a + b, ast.Sub: a - b, ast.Mult: a * b}.get(type(e.op)) if not isinstance(e.op, ast.Div) else a / b
-            if isinstance(e, ast.UnaryOp) and isinstance(e.op, ast.USub):
-                return -term_of(e.operand)
-            raise AnalysisError(f'_chop: interpolation expression outside the recognised subset: {k}')
-        got = term_of(lerp)
-        r5.check(eq_term(got, wi + tt * (wj - wi)), 'convex combination', loc(cfi, lerp), {'expression': ast.unparse(lerp), 'normal_form': T.show(got)}, key='lerp-form')
-        val = exact_eval(lerp, {'frame.wavelength[i]', 'frame.wavelength[j]'}, {'t': OTHER})
-        guard = any(isinstance(s, ast.If) and 'frame.wavelength[i]==frame.wavelength[j]' in norm(s.test) for s in ast.walk(cross[0]))
-        r5.check(val == ENDPOINT or guard, 'exact for equal endpoints', loc(cfi, lerp),
-                 {'expression': ast.unparse(lerp), 'value_when_endpoints_coincide': val,
-                  'consumer': 'Subframe.is_regular compares time/wavelength with =='}, key='lerp-exact')
-    rfi = repo.func(MOD, 'Subframe.is_regular')
-    run.extra['is_regular_uses_exact_equality'] = any(isinstance(n, ast.Compare) and isinstance(n.ops[0], ast.Eq) for n in ast.walk(rfi.node))
-
-    # ---- R3 Frame.chop ---------------------------------------------------------------------
-    r3 = run.rule('R3', 'Frame.chop: propagate to the chopper, refuse smaller distances, clip every subframe by every window with both half-planes, no early exit', 4)
+    # ---- R3: Frame.chop ---------------------------------------------------------------------------------------
+    r3 = run.rule('R3', 'Frame.chop: refuses a chopper in front of the frame; otherwise exactly the polygons of subframe x window', 4)
     hfi = repo.func(MOD, 'Frame.chop')
-    hcfg = CFG(hfi.node)
-    texts = stmts(hfi.node)
-    guards = [(g, lab) for g, lab, exc in hcfg.guards() if exc == 'ValueError' and norm(g.test) in ('distance<self.distance', 'self.distance>distance')]
-    prop = [st for st in hcfg.stmt.values() if isinstance(st, ast.Assign) and norm(st) == 'frame=self.propagate_to(distance)']
-    r3.check(len(guards) == 1 and len(prop) == 1 and hcfg.guarded_by(prop[0], guards[0][0], guards[0][1])
-             and 'distance=chopper.distance.to(unit=self.distance.unit,copy=False)' in texts, 'refuse and propagate', loc(hfi),
-             {'guards': [norm(g.test) for g, _ in guards]}, key='refuse')
-    fl = [n for n in ast.walk(hfi.node) if isinstance(n, ast.For)]
-    its = sorted(norm(n.iter) for n in fl)
-    r3.check(its == ['frame.subframes', 'zip(chopper.time_open,chopper.time_close,strict=True)'], 'subframes x windows', loc(hfi), {'loops': its}, key='loops')
-    jumps = [type(n).__name__ for f in fl for n in ast.walk(f) if isinstance(n, ast.Break | ast.Continue | ast.Return)]
-    r3.check(not jumps, 'no early exit from the loops', loc(hfi), {'jumps': jumps}, key='no-exit')
-    inner = [n for n in fl if norm(n.iter).startswith('zip(')]
-    ok = False
-    if inner:
-        body = inner[0].body
-        ok = len(body) == 1 and isinstance(body[0], ast.If) \
-            and norm(body[0].test) == '(tmp:=_chop(subframe,open,close_to_open=True))isnotNone' \
-            and len(body[0].body) == 1 and isinstance(body[0].body[0], ast.If) \
-            and norm(body[0].body[0].test) == '(tmp:=_chop(tmp,close,close_to_open=False))isnotNone' \
-            and [norm(x) for x in body[0].body[0].body] == ['chopped.subframes.append(tmp)'] \
-            and norm(inner[0].target) == '(open,close)'
-    r3.check(ok and 'chopped=Frame(distance=frame.distance,subframes=[])' in texts and 'returnchopped' in texts, 'both half-planes, None dropped', loc(hfi),
-             {'inner_body': [norm(x)[:100] for x in inner[0].body] if inner else None}, key='clip')
+    irf = repo.func(MOD, 'Subframe.is_regular')
+    r6 = run.rule('R6', 'every subframe produced by chopping is regular (extreme time and wavelength at the same vertex)', 3)
+    scenarios = {
+        # name: (subframes [(times, wavelengths)], opens, closes) at d0 = 2 m, chopper at 5 m: t' = t + 3*lambda
+        'cut by both edges of a window and split over two windows': ([((0, 4, 4, 0), (1, 1, 3, 3))], (4, 9), (7, 12)),
+        'one subframe misses the first window, another misses the second': ([((0, 1, 1, 0), (1, 1, 2, 2)), ((20, 21, 21, 20), (1, 1, 2, 2))], (3, 23), (8, 28)),
+        'window contains the frame; second window misses it': ([((0, 2, 1), (1, 1, 2))], (0, 50), (40, 60)),
+        'vertices exactly on open and close': ([((0, 2, 2, 0), (1, 1, 2, 2))], (3,), (8,)),
+        'windows listed in decreasing time order': ([((0, 4, 4, 0), (1, 1, 3, 3))], (9, 4), (12, 7)),
+        'a window far later listed before the windows that hit': ([((0, 4, 4, 0), (1, 1, 3, 3))], (100, 4, 9), (110, 7, 12)),
+    }
+    for name, (subs, opens, closes) in scenarios.items():
+        w = World(repo)
+        d0 = w.scalar('d0', M, 2)
+        dc = w.scalar('dc', CM, 500)
+        frame = w.frame(d0, [w.subframe(f'S{k}', tv, wv) for k, (tv, wv) in enumerate(subs)])
+        ch = w.chopper('C', dc, opens, closes)
+        kind, res = w.call(hfi, [ch], bound=frame)
+        val = w.val()
+        want = []
+        for s_ in frame.attrs['subframes']:
+            moved = clip.shear(points(s_), dc.term - d0.term, alpha())
+            for o_, c_ in zip(items_of(ch.attrs['time_open']), items_of(ch.attrs['time_close']), strict=True):
+                poly = clip.window(moved, o_.term, c_.term, val)
+                if clip.dedupe(clip.numeric(poly, val)):
+                    want.append(poly)
+        if kind != 'return' or not isinstance(res, SObj):
+            r3.fail(name, loc(hfi), {'outcome': kind, 'detail': repr(res)[:200]}, key=name)
+            continue
+        got = [points(s_) for s_ in res.attrs.get('subframes', [])]
+        generic = 'exactly on' not in name
+        ok, detail = match_polygons(got, want, val, symbolic=generic)
+        dist_ok = isinstance(res.attrs.get('distance'), SVar) and isinstance(res.attrs['distance'].term, Rat) and res.attrs['distance'].term.eq(dc.term)
+        r3.check(ok and dist_ok and bool(want), name, loc(hfi), {**detail, 'distance_is_the_chopper_distance': dist_ok, 'polygons_expected': len(want)}, key=name)
+        regs = []
+        for s_ in res.attrs.get('subframes', []):
+            k2, reg = w.call(irf, [], bound=s_)
+            regs.append(bool(reg.members.get('concrete')) if isinstance(reg, SVar) and 'concrete' in reg.members else (reg if isinstance(reg, bool) else None))
+        if generic:
+            r6.check(bool(regs) and all(x is True for x in regs), name, loc(irf), {'is_regular': regs}, key='regular:' + name)
+    w = World(repo)
+    frame = w.frame(w.scalar('d0', M, 5), [w.subframe('S', (0, 2, 1), (1, 1, 2))])
+    ch = w.chopper('C', w.scalar('dc', M, 2), (0,), (50,))
+    kind, res = w.call(hfi, [ch], bound=frame)
+    r3.check(kind == 'raise' and res == 'ValueError', 'chopper in front of the frame is refused', loc(hfi), {'outcome': (kind, res if kind == 'raise' else None)}, key='refuse')
 
-    # ---- R4 FrameSequence ---------------------------------------------------------------------
-    r4 = run.rule('R4', 'FrameSequence.chop sorts by distance; __getitem__ propagates the last frame not beyond the distance', 2)
+    # ---- R4: FrameSequence --------------------------------------------------------------------------------------
+    r4 = run.rule('R4', 'FrameSequence.chop is independent of the listing order; __getitem__ propagates the last frame not beyond the distance', 3)
     sfi = repo.func(MOD, 'FrameSequence.chop')
-    texts = stmts(sfi.node)
-    r4.check('choppers=sorted(choppers,key=lambdax:x.distance)' in texts and 'frames=list(self.frames)' in texts
-             and 'frames.append(frames[-1].chop(chopper))' in texts and 'returnFrameSequence(frames)' in texts, 'FrameSequence.chop', loc(sfi), {'statements': texts}, key='sorted')
     gfi = repo.func(MOD, 'FrameSequence.__getitem__')
-    loops = [n for n in ast.walk(gfi.node) if isinstance(n, ast.For)]
-    ok = False
-    if len(loops) == 1:
-        lp = loops[0]
-        b = lp.body
-        ok = norm(lp.iter) in ('self', 'self.frames') and len(b) == 2 and isinstance(b[0], ast.If) and norm(b[0].test) == 'frame.distance>distance' \
-            and len(b[0].body) == 1 and isinstance(b[0].body[0], ast.Break) and norm(b[1]) == 'frame_before_detector=frame'
-    texts = stmts(gfi.node)
-    r4.check(ok and 'returnframe_before_detector.propagate_to(distance)' in texts and "distance=item.to(unit='m')" in texts, 'FrameSequence.__getitem__', loc(gfi),
-             {'statements': texts}, key='getitem')
+    pfi2 = repo.func(MOD, 'FrameSequence.from_source_pulse')
+    finals = {}
+    seqs = {}
+    for order in ('near-first', 'far-first'):
+        w = World(repo)
+        kind, seq = w.call(pfi2, [w.scalar('tmin', SEC, 0), w.scalar('tmax', SEC, 4), w.scalar('wmin', ANG, 1, True), w.scalar('wmax', ANG, 3, True)])
+        if kind != 'return' or not isinstance(seq, SObj):
+            raise AnalysisError(f'FrameSequence.from_source_pulse: {kind} {seq!r}')
+        c1 = w.chopper('C1', w.scalar('dc1', M, 3), (4, 9), (7, 12))
+        c2 = w.chopper('C2', w.scalar('dc2', M, 6), (10,), (30,))
+        kind, out = w.call(sfi, [[c1, c2] if order == 'near-first' else [c2, c1]], bound=seq)
+        val = w.val()
+        src = points(seq.attrs['frames'][0].attrs['subframes'][0])
+        d_src = seq.attrs['frames'][0].attrs['distance'].term
+        stage1 = []
+        moved = clip.shear(src, c1.attrs['distance'].term - d_src, alpha())
+        for o_, c_ in zip(items_of(c1.attrs['time_open']), items_of(c1.attrs['time_close']), strict=True):
+            poly = clip.window(moved, o_.term, c_.term, val)
+            if clip.dedupe(clip.numeric(poly, val)):
+                stage1.append(poly)
+        stage2 = []
+        for poly in stage1:
+            moved = clip.shear(poly, c2.attrs['distance'].term - c1.attrs['distance'].term, alpha())
+            for o_, c_ in zip(items_of(c2.attrs['time_open']), items_of(c2.attrs['time_close']), strict=True):
+                q = clip.window(moved, o_.term, c_.term, val)
+                if clip.dedupe(clip.numeric(q, val)):
+                    stage2.append(q)
+        if kind != 'return' or not isinstance(out, SObj):
+            r4.fail(f'chop [{order}]', loc(sfi), {'outcome': kind, 'detail': repr(out)[:200]}, key='sorted')
+            continue
+        frames = out.attrs.get('frames', [])
+        ok = len(frames) == 3
+        detail = {'frames': len(frames)}
+        if ok:
+            ok1, det1 = match_polygons([points(s_) for s_ in frames[1].attrs['subframes']], stage1, val, True)
+            ok2, det2 = match_polygons([points(s_) for s_ in frames[2].attrs['subframes']], stage2, val, True)
+            ok = ok1 and ok2 and bool(stage2)
+            detail = {'after_nearer_chopper': det1, 'after_farther_chopper': det2}
+        r4.check(ok, f'chop [{order}]', loc(sfi), detail, key='sorted')
+        finals[order] = [clip.numeric(points(s_), val) for s_ in frames[2].attrs['subframes']] if len(frames) == 3 else None
+        seqs[order] = (w, out, c1, c2, stage1, stage2)
+    if 'near-first' in seqs:
+        w, out, c1, c2, stage1, stage2 = seqs['near-first']
+        val = w.val()
+        for label, dq_val, base_frame, base_polys, base_d in (('between the choppers', 4, 1, stage1, c1.attrs['distance'].term),
+                                                              ('beyond the last chopper', 8, 2, stage2, c2.attrs['distance'].term)):
+            dq = w.scalar('dq_' + label.split()[0], M, dq_val)
+            kind, fr = w.call(gfi, [dq], bound=out)
+            want = [clip.shear(p_, dq.term - base_d, alpha()) for p_ in base_polys]
+            ok = kind == 'return' and isinstance(fr, SObj)
+            detail = {'outcome': kind}
+            if ok:
+                ok, detail = match_polygons([points(s_) for s_ in fr.attrs['subframes']], want, val, True)
+                ok = ok and isinstance(fr.attrs['distance'].term, Rat) and fr.attrs['distance'].term.eq(dq.term)
+            r4.check(ok, f'__getitem__ {label}', loc(gfi), detail, key='getitem')
+    # two choppers at the same distance: the frame looked up behind them has passed both
+    for order in ('leading-edge first', 'trailing-edge first'):
+        w = World(repo)
+        kind, seq = w.call(pfi2, [w.scalar('tmin', SEC, 0), w.scalar('tmax', SEC, 4), w.scalar('wmin', ANG, 1, True), w.scalar('wmax', ANG, 3, True)])
+        ca = w.chopper('CA', w.scalar('dca', M, 3), (6,), (40,))
+        cb = w.chopper('CB', w.scalar('dcb', M, 3), (0,), (9,))
+        kind, out = w.call(sfi, [[ca, cb] if order.startswith('leading') else [cb, ca]], bound=seq)
+        val = w.val()
+        src = points(seq.attrs['frames'][0].attrs['subframes'][0])
+        moved = clip.shear(src, ca.attrs['distance'].term - seq.attrs['frames'][0].attrs['distance'].term, alpha())
+        both = clip.window(clip.window(moved, items_of(ca.attrs['time_open'])[0].term, items_of(ca.attrs['time_close'])[0].term, val),
+                           items_of(cb.attrs['time_open'])[0].term, items_of(cb.attrs['time_close'])[0].term, val)
+        dq = w.scalar('dq', M, 7)
+        ok, detail = False, {'outcome': kind}
+        if kind == 'return' and isinstance(out, SObj):
+            kind, fr = w.call(gfi, [dq], bound=out)
+            detail = {'outcome': kind}
+            if kind == 'return' and isinstance(fr, SObj):
+                want_q = [clip.shear(both, dq.term - ca.attrs['distance'].term, alpha())]
+                ok, detail = match_polygons([points(s_) for s_ in fr.attrs['subframes']], want_q, val, False)
+        r4.check(ok, f'__getitem__ behind two choppers at one distance [{order}]', loc(gfi), detail, key='getitem-colocated')
     return run
